@@ -266,7 +266,7 @@ func genDamage(t *rapid.T, old h.Tree) []Damage {
 var prop = h.Prop[Spec]{
 	ID: "C09", Name: "safekeeper",
 	Gen: func(t *rapid.T) Spec {
-		s := Spec{Pair: h.GenPair(t, h.GenOpts{KindChange: true})}
+		s := Spec{Pair: h.GenPair(t, h.GenOpts{KindChange: true, ConstCap: 16384})}
 		switch rapid.IntRange(0, 5).Draw(t, "algo") {
 		case 4:
 			s.Comp = h.Comp{Algo: 2, Q: 1}
